@@ -591,7 +591,11 @@ where
                         }
                     }
                 }
-                Ok(res)
+                if let Some(e) = error {
+                    Err(e)
+                } else {
+                    Ok(res)
+                }
             }
             v => Err(take_cf_content(E::error(
                 None,
@@ -653,7 +657,11 @@ where
                         }
                     }
                 }
-                Ok(res)
+                if let Some(e) = error {
+                    Err(e)
+                } else {
+                    Ok(res)
+                }
             }
             v => Err(take_cf_content(E::error(
                 None,
